@@ -106,6 +106,17 @@ fn decode_host(host: &str) -> Option<Cow<str>> {
     }
 }
 
+/// Returns whether `rp_id` is equal to `host` or is a suffix of it that starts at a label boundary.
+///
+/// An `rp_id` which itself starts with a `.` is let through here: it has an empty label and is
+/// rejected by the registrable domain check.
+fn is_suffix_at_label_boundary(host: &str, rp_id: &str) -> bool {
+    match host.strip_suffix(rp_id) {
+        Some(prefix) => prefix.is_empty() || prefix.ends_with('.') || rp_id.starts_with('.'),
+        None => false,
+    }
+}
+
 /// The origin of a WebAuthn request.
 pub enum Origin<'a> {
     /// A Url, meant for a request in the web browser.
@@ -536,7 +547,7 @@ where
         let mut effective_domain = origin.domain().ok_or(WebauthnError::OriginMissingDomain)?;
 
         if let Some(rp_id) = rp_id {
-            if !effective_domain.ends_with(rp_id) {
+            if !is_suffix_at_label_boundary(effective_domain, rp_id) {
                 return Err(WebauthnError::OriginRpMissmatch);
             }
 
@@ -608,7 +619,7 @@ where
 
         if let Some(rp_id) = rp_id {
             // subset from assert_web_rp_id
-            if !effective_rp_id.ends_with(rp_id) {
+            if !is_suffix_at_label_boundary(effective_rp_id, rp_id) {
                 return Err(WebauthnError::OriginRpMissmatch);
             }
             effective_rp_id = rp_id;
